@@ -128,6 +128,36 @@ def gen_cases(chk, mags, fixbits, scale):
         elif e > s:
             w = e - s
             add("bit-field-rotate", (a,), (rng.choice([0, 1, -1, w, w - 1, w + 1, -w, 64, -64, 63, rng.randint(-300, 300)]), s, e), tag="field")
+    # 6b. deterministic part: fixed operands x fixed bounds x every single-bit / field operation
+    M64 = (1 << 64) - 1
+    fixed = [1 << 63, -(1 << 63), 1 << 64, -(1 << 64), (1 << 128) - 1, -((1 << 128) - 1), (1 << 127) + 1, -((1 << 127) + 1),
+             M64 << 64, -(M64 << 64), -5, -(1 << 61), (1 << 62) - 1, 0x5555555555555555555555555555555555, -0x5555555555555555555555555555555555]
+    bounds = [(0, 64), (1, 63), (63, 65), (64, 128), (62, 127), (128, 192), (60, 200), (192, 320), (64, 64)]
+    for a in fixed:
+        for (s0, e0) in bounds:
+            for op in FIELD1:
+                add(op, (a,), (s0, e0), tag="fixed-field")
+            for op in FIELD2:
+                for b in (fixed[(fixed.index(a) + 3) % len(fixed)], -1, M64):
+                    add(op, (a, b), (s0, e0), tag="fixed-field")
+            if e0 > s0:
+                for cnt in (1, -1, 64, e0 - s0 - 1):
+                    add("bit-field-rotate", (a,), (cnt, s0, e0), tag="fixed-field")
+            add("bit-set?", (a,), (s0,), tag="fixed-bit")
+            add("copy-bit", (a,), (e0, 1), tag="fixed-bit")
+            add("copy-bit", (a,), (s0, 0), tag="fixed-bit")
+            add("bit-swap", (a,), (s0, e0), tag="fixed-bit")
+            add("arithmetic-shift", (a,), (-e0,), tag="fixed-shift")
+            add("arithmetic-shift", (a,), (s0,), tag="fixed-shift")
+        for b in fixed:
+            for op in OPS2:
+                add(op, (a, b), tag="fixed-pair")
+        for op in OPS1:
+            add(op, (a,), tag="fixed-unary")
+        add("bits->list", (a,), (130,), tag="fixed-list")
+        for b in (fixed[1], fixed[4], -1):
+            add("bitwise-if", (a, b, fixed[(fixed.index(a) + 5) % len(fixed)]), tag="fixed-if")
+            add("bitwise-if", (b, a, fixed[(fixed.index(a) + 7) % len(fixed)]), tag="fixed-if")
     # 7. bitwise-if
     for i in range(int((8000 if T else 800) * scale)):
         add("bitwise-if", (rnd(), rnd(), rnd()), tag="if")
@@ -144,6 +174,9 @@ def gen_cases(chk, mags, fixbits, scale):
         add("bits->list", (a,), (rng.choice([0, 1, 63, 64, 65, 128, abs(a).bit_length(), abs(a).bit_length() + rng.randint(0, 70)]),), tag="list")
         n = rng.choice([0, 1, 61, 62, 63, 64, 65, 127, 128, 129, rng.randint(0, 260)])
         add("list->bits", (), [rng.choice([0, 1, 1]) for _ in range(n)], tag="list")
+    # 10. the same calls on operands stored with spare most significant words (every 3rd case of the deterministic groups)
+    for c in [c for c in cases if c.a and c.tag in ("fixed-pair", "fixed-field", "fixed-bit", "fixed-unary", "fixed-shift", "fixed-if", "fixed-list", "lattice-unary")][::3]:
+        cases.append(Case("pad:" + c.op, c.a, c.k, "", "spare-words"))
     return nc.number_cases(cases)
 
 
@@ -152,7 +185,8 @@ def key17(fixbits):
         ints = [x.numerator for x in c.a]
         big = any(not (-(1 << fixbits) <= x < (1 << fixbits)) for x in ints)
         neg = any(x < 0 for x in ints)
-        return "%s:%s%s" % (c.op, "negative-" if neg else "", "bignum" if big else "fixnum")
+        op = c.op[4:] + ":spare-words" if c.op.startswith("pad:") else c.op
+        return "%s:%s%s" % (op, "negative-" if neg else "", "bignum" if big else "fixnum")
     return key
 
 
@@ -206,6 +240,8 @@ def run():
         for c in sampled[1:: max(1, len(sampled) // 5)]:
             chk.sample({"call": c.scheme(), "implementation": outs.get(c.id), "tag": c.tag})
         missing = [op for op in ALLOPS if not any(c.op == op for c in acc)]
+        if not any(c.op.startswith("pad:") for c in acc):
+            missing.append("pad:*")
         if missing:
             raise Broken("vacuous: no accepted case for operations %s" % missing)
         chk.assumptions += ["operands reach the implementation as hexadecimal integer literals and results come back through number->string radix 16",
